@@ -12,7 +12,9 @@ ALL = ["C%02d" % i for i in range(1, 21)]
 GENERIC = (" Generic obligations of every check: (RANGE-0): no loop or comprehension of a function the rules analyse iterates a bounded slice of a "
            "collection, so what the rules state for every item is done for all of them; (TRUTHY-0) no enumerate / range index is tested by truthiness; "
            "(NAME-0) every delay name an analysed class cancels, checks or runs is a name it arms; (ROUND-0) no value is scaled up by a constant after "
-           "it was truncated; (LOOP-0) every for loop of an analysed function can reach its second item.")
+           "it was truncated; (LOOP-0) every for loop of an analysed function can reach its second item; "
+           "(SWAP-0) no parameter of an analysed / anchored function lands in another parameter's slot of its callee; (DROP-0) a pass-through hands on every "
+           "parameter its callee also takes.")
 checks = []
 for p in ALL:
     if p not in CLAIMS:
